@@ -223,35 +223,43 @@ func runGate(c Case) interface{} {
 		}
 	}
 	aborted := timedOut
-	// drain: release everything still inside, cancel everything still waiting
-	for round := 0; round < 50; round++ {
-		g.mu.Lock()
-		var ins []int
-		for k := range g.inside {
-			ins = append(ins, k)
-		}
-		g.mu.Unlock()
-		if len(ins) == 0 {
-			break
-		}
-		for _, k := range ins {
-			g.mu.Lock()
-			ch := g.release[k]
-			g.mu.Unlock()
-			ch <- "success"
-		}
-		time.Sleep(2 * time.Millisecond)
-	}
-	for _, cf := range cancels {
-		cf()
-	}
+	// drain: release everything still inside, then cancel everything still waiting - and keep releasing: a waiter may win
+	// the freed slot at the very moment its context is cancelled (Go's select picks either) and then sits inside the gate
 	done := make(chan struct{})
 	go func() { wg.Wait(); close(done) }()
-	drained := true
-	select {
-	case <-done:
-	case <-time.After(3 * time.Second):
-		drained = false
+	drained := false
+	cancelledAll := false
+	quiet := 0
+	deadline := time.Now().Add(5 * time.Second)
+	for !drained && time.Now().Before(deadline) {
+		g.mu.Lock()
+		var chans []chan string
+		for k := range g.inside {
+			chans = append(chans, g.release[k])
+		}
+		g.mu.Unlock()
+		for _, ch := range chans {
+			select {
+			case ch <- "success":
+			default: // already released in an earlier round
+			}
+		}
+		if len(chans) == 0 {
+			quiet++
+		} else {
+			quiet = 0
+		}
+		if quiet >= 3 && !cancelledAll {
+			for _, cf := range cancels {
+				cf()
+			}
+			cancelledAll = true
+		}
+		select {
+		case <-done:
+			drained = true
+		case <-time.After(time.Millisecond):
+		}
 	}
 	// after the history: N fresh renders must be admitted simultaneously (no slot leaked)
 	fresh := 0
